@@ -82,6 +82,11 @@ def h_unknown_runs(env):
     env.check("len", m.__len__() == len(out))
     m2 = mod.M().parse(out)
     env.check("stable", bytes(m2) == out)
+    import copy
+
+    dup = copy.deepcopy(m)
+    dup.parse(sym.wire(gen_unknown(env, "later", known)))
+    env.check("unknown-fields-not-shared-with-a-deep-copy", bytes(m) == out)
 
 
 def h_relay(env):
